@@ -18,6 +18,7 @@ import (
 	"github.com/siglens/siglens/pkg/segment"
 	"github.com/siglens/siglens/pkg/segment/memory/limit"
 	"github.com/siglens/siglens/pkg/segment/query"
+	sutils "github.com/siglens/siglens/pkg/segment/utils"
 	"github.com/siglens/siglens/pkg/segment/writer/metrics"
 	"github.com/siglens/siglens/pkg/segment/writer/metrics/meta"
 
@@ -36,9 +37,10 @@ type e2eSeries struct {
 	Tags []tag  `json:"tags"`
 }
 type e2eHistory struct {
-	Series []e2eSeries `json:"series"`
-	DPs    []e2eDP     `json:"dps"`
-	T0     uint32      `json:"t0"`
+	Series    []e2eSeries `json:"series"`
+	DPs       []e2eDP     `json:"dps"`
+	T0        uint32      `json:"t0"`
+	BlockOnly bool        `json:"first_rotation_block_only"` // first rotation closes the metrics BLOCK but keeps the segment open
 }
 
 // observation: per stage, per series index, the points returned by a selector query
@@ -152,6 +154,20 @@ func ingest(h e2eHistory, phase int) []string {
 	return errs
 }
 
+// block rotation without segment rotation: CheckAndRotate(false) rotates the block when its encoded size
+// exceeds sutils.MAX_BYTES_METRICS_BLOCK (a var; the server default is 100 MB)
+func rotateBlocksOnly() error {
+	old := sutils.MAX_BYTES_METRICS_BLOCK
+	sutils.MAX_BYTES_METRICS_BLOCK = 1
+	defer func() { sutils.MAX_BYTES_METRICS_BLOCK = old }()
+	for _, mSeg := range metrics.GetAllMetricsSegments() {
+		if err := mSeg.CheckAndRotate(false); err != nil {
+			return err
+		}
+	}
+	return nil
+}
+
 func rotateAll() error {
 	for _, mSeg := range metrics.GetAllMetricsSegments() {
 		if err := mSeg.CheckAndRotate(true); err != nil {
@@ -187,7 +203,11 @@ func workerMain(args []string) {
 			out = append(out, e2eObs{Stage: "ingest0", Errs: e})
 		}
 		out = append(out, queryAll(h, "open"))
-		if err := rotateAll(); err != nil {
+		if h.BlockOnly {
+			if err := rotateBlocksOnly(); err != nil {
+				fail("rotate block: " + err.Error())
+			}
+		} else if err := rotateAll(); err != nil {
 			fail("rotate: " + err.Error())
 		}
 		out = append(out, queryAll(h, "rotated"))
@@ -198,12 +218,17 @@ func workerMain(args []string) {
 		if err := rotateAll(); err != nil {
 			fail("rotate2: " + err.Error())
 		}
-		out = append(out, queryAll(h, "rotated2"))
+		// the block reader looks series up in map-iteration order: ask several times
+		for i := 0; i < 4; i++ {
+			out = append(out, queryAll(h, "rotated2"))
+		}
 	case "restart":
 		if err := query.PopulateMetricsMetadataForTheFile_TestOnly(meta.GetLocalMetricsMetaFName()); err != nil {
 			fail("populate: " + err.Error())
 		}
-		out = append(out, queryAll(h, "restart"))
+		for i := 0; i < 4; i++ {
+			out = append(out, queryAll(h, "restart"))
+		}
 	}
 	ob, _ := json.Marshal(out)
 	_ = os.WriteFile(of, ob, 0o644)
@@ -220,6 +245,29 @@ func specialHistory() e2eHistory {
 	h.Series = []e2eSeries{{"spec", []tag{{"k", "negzero"}}}, {"spec", []tag{{"k", "nan"}}}}
 	h.DPs = []e2eDP{{0, 1700000010, 0x8000000000000000, 0}, {0, 1700000020, 0x3FF0000000000000, 0},
 		{1, 1700000010, 0x7FF8000000000001, 0}, {1, 1700000020, 0xFFF8000000000000, 0}, {1, 1700000030, 0x7FF0000000000001, 0}}
+	return h
+}
+
+// many series of ONE metric, half of which only start after the first rotation (absent from the first
+// rotated block): the block reader is asked for tsids that the block does not hold, in map order
+func lateSeriesHistory(r *vhlib.Rng) e2eHistory {
+	h := e2eHistory{T0: uint32(1700000000 + r.Intn(1000)*400), BlockOnly: true}
+	n := r.Range(6, 10)
+	for i := 0; i < n; i++ {
+		h.Series = append(h.Series, e2eSeries{"late", []tag{{"host", fmt.Sprintf("h%02d", i)}}})
+	}
+	for si := range h.Series {
+		late := si%2 == 1
+		ts := r.Intn(10)
+		for j := 0; j < 4; j++ {
+			ts += r.Range(1, 20)
+			ph := 0
+			if late || j >= 2 {
+				ph = 1
+			}
+			h.DPs = append(h.DPs, e2eDP{Series: si, T: h.T0 + uint32(ts), V: math.Float64bits(float64(si*100 + j)), Phase: ph})
+		}
+	}
 	return h
 }
 
@@ -324,6 +372,10 @@ func e2ePart(cfg vhlib.Config, sum *vhlib.Summary, r *vhlib.Rng) {
 		h := genHistory(r.Fork(), known)
 		if special {
 			h = specialHistory()
+		}
+		if !known && !special && hi%2 == 1 {
+			h = lateSeriesHistory(r.Fork())
+			sum.Count("e2e/late_series_history")
 		}
 		dir := filepath.Join(root, fmt.Sprintf("h%d", hi))
 		_ = os.MkdirAll(dir, 0o755)
